@@ -222,6 +222,11 @@ func transformReplay(args []string) {
 			col.report(mismatch{Kind: kind, Key: kind + ":" + k, Case: tc.C, Detail: detail, Expected: e, Actual: a, Replay: rp})
 		}
 
+		// a difference in a point the statement of C18 does not fix (orders, further members): recorded, no verdict
+		beyond := func(kind, detail string, e, a interface{}) {
+			col.beyond(kind, detail, tc.C, e, a)
+		}
+
 		defer func() {
 			if r := recover(); r != nil {
 				fail("panic", fmt.Sprint(r), nil, nil)
@@ -322,8 +327,12 @@ func transformReplay(args []string) {
 				}
 			}
 
-			if !reflect.DeepEqual(out["@context"], wantCtx) {
-				fail("contexts", "", wantCtx, out["@context"])
+			// the statement fixes WHICH contexts are listed (each once), not their order
+			gotCtx, _ := out["@context"].([]interface{})
+			if !sameMultiset(gotCtx, wantCtx) {
+				fail("contexts", "the DID context plus one context per key type used, each exactly once", wantCtx, out["@context"])
+			} else if !reflect.DeepEqual(out["@context"], wantCtx) {
+				beyond("context-order", "contexts are listed in another order than pinned (DID context, @base, key types by first use)", wantCtx, out["@context"])
 			}
 
 			// verification methods: every key exactly once
@@ -333,8 +342,28 @@ func transformReplay(args []string) {
 				return
 			}
 
+			vmByID := map[string]map[string]interface{}{}
+			vmOrder := true
+
+			for i, x := range vms {
+				vm, _ := x.(map[string]interface{})
+				id, _ := vm["id"].(string)
+
+				if _, dup := vmByID[id]; dup {
+					fail("verification-methods", "verification method "+id+" emitted more than once", nil, out["verificationMethod"])
+					return
+				}
+
+				vmByID[id] = vm
+				vmOrder = vmOrder && i < len(exp.VMs) && id == qid(exp.VMs[i].ID)
+			}
+
+			if !vmOrder {
+				beyond("verification-method-order", "verification methods are not in the order of the internal keys", nil, out["verificationMethod"])
+			}
+
 			for i, e := range exp.VMs {
-				vm, _ := vms[i].(map[string]interface{})
+				vm := vmByID[qid(e.ID)]
 				want := map[string]interface{}{"id": qid(e.ID), "type": e.Type, "controller": tDID}
 				g := given[e.ID.ID]
 				ed := pool.Get("ed", fmt.Sprintf("tr%d", e.ID.ID))
@@ -367,8 +396,11 @@ func transformReplay(args []string) {
 					continue
 				}
 
-				if !reflect.DeepEqual(got, want) {
+				// exactly the keys with that purpose, each once; the order is not part of the statement
+				if !sameMultiset(got, want) {
 					fail("relationship", name, want, out[name])
+				} else if !reflect.DeepEqual(got, want) {
+					beyond("relationship-order", name+" is not in the order of the internal keys", want, out[name])
 				}
 			}
 
@@ -379,17 +411,33 @@ func transformReplay(args []string) {
 				return
 			}
 
+			svcByID := map[string]interface{}{}
+			for _, x := range gotSvcs {
+				m, _ := x.(map[string]interface{})
+				id, _ := m["id"].(string)
+
+				if _, dup := svcByID[id]; dup {
+					fail("services", "service "+id+" emitted more than once", nil, out["service"])
+					return
+				}
+
+				svcByID[id] = x
+			}
+
 			for i := range svcs {
 				want := generic(svcs[i]).(map[string]interface{})
 				want["id"] = qid(tQID{Relative: c.Base, Prefix: "s", ID: i + 1})
 
-				if !reflect.DeepEqual(gotSvcs[i], want) {
-					fail("service", fmt.Sprintf("service %d", i), want, gotSvcs[i])
+				if !reflect.DeepEqual(svcByID[want["id"].(string)], want) {
+					fail("service", fmt.Sprintf("service %d", i), want, out["service"])
+				} else if !reflect.DeepEqual(gotSvcs[i], want) {
+					beyond("service-order", "services are not in the order of the internal document", nil, out["service"])
 				}
 			}
 
+			// (the statement does not speak about also-known-as or about further members)
 			if len(svcs) > 0 && !reflect.DeepEqual(out["alsoKnownAs"], doc["alsoKnownAs"]) {
-				fail("also-known-as", "", doc["alsoKnownAs"], out["alsoKnownAs"])
+				beyond("also-known-as", "also-known-as URIs are not passed through as given", doc["alsoKnownAs"], out["alsoKnownAs"])
 			}
 
 			// nothing else in the document
@@ -398,7 +446,7 @@ func transformReplay(args []string) {
 				case "id", "@context", "verificationMethod", "service", "alsoKnownAs", "authentication", "assertionMethod",
 					"keyAgreement", "capabilityDelegation", "capabilityInvocation":
 				default:
-					fail("unexpected-member", name, nil, out[name])
+					beyond("unexpected-member", name, nil, out[name])
 				}
 			}
 		case "ops":
@@ -563,8 +611,13 @@ func transformReplay(args []string) {
 
 			_ = method
 
-			if !reflect.DeepEqual(md, want) {
+			// every item the state has must be reported, with its value, where resolution metadata carries it;
+			// an item the state does not have may be absent or reported as its zero value; further members are
+			// not the statement's business
+			if !metaCovers(md, want) {
 				fail("metadata", "", want, md)
+			} else if !reflect.DeepEqual(md, want) {
+				beyond("metadata-layout", "metadata carries further members / explicit zero values", want, md)
 			}
 		}
 	})
@@ -577,4 +630,82 @@ func transformReplay(args []string) {
 	}
 
 	col.finish()
+}
+
+// sameMultiset: equal as multisets of JSON values.
+func sameMultiset(a, b []interface{}) bool {
+	if len(a) != len(b) {
+		return false
+	}
+
+	cnt := map[string]int{}
+	for _, x := range a {
+		cnt[digestJSON(x)]++
+	}
+
+	for _, x := range b {
+		cnt[digestJSON(x)]--
+	}
+
+	for _, n := range cnt {
+		if n != 0 {
+			return false
+		}
+	}
+
+	return true
+}
+
+func isZeroJSON(v interface{}) bool {
+	switch t := v.(type) {
+	case nil:
+		return true
+	case bool:
+		return !t
+	case string:
+		return t == ""
+	case float64:
+		return t == 0
+	case []interface{}:
+		return len(t) == 0
+	case map[string]interface{}:
+		return len(t) == 0
+	}
+
+	return false
+}
+
+// metaCovers: got reports every member of want with want's value (objects recursively); members of got that
+// want does not have must be zero values when they are among the items the statement names.
+func metaCovers(got, want map[string]interface{}) bool {
+	for k, w := range want {
+		g, ok := got[k]
+		if !ok {
+			return false
+		}
+
+		if wm, isObj := w.(map[string]interface{}); isObj {
+			gm, ok := g.(map[string]interface{})
+			if !ok || !metaCovers(gm, wm) {
+				return false
+			}
+
+			continue
+		}
+
+		if !reflect.DeepEqual(g, w) {
+			return false
+		}
+	}
+
+	named := map[string]bool{"deactivated": true, "canonicalId": true, "equivalentId": true, "created": true, "updated": true,
+		"versionId": true, "updateCommitment": true, "recoveryCommitment": true, "anchorOrigin": true, "published": true}
+
+	for k, g := range got {
+		if _, ok := want[k]; !ok && named[k] && !isZeroJSON(g) {
+			return false
+		}
+	}
+
+	return true
 }
